@@ -198,6 +198,9 @@ impl Span {
 
         #[cfg(feature = "enable")]
         {
+            // Convert the name before borrowing the stack: the conversion is user code and may
+            // use the tracing API itself.
+            let name: Cow<'static, str> = name.into();
             LOCAL_SPAN_STACK
                 .try_with(move |stack| Self::enter_with_stack(name, &mut (*stack).borrow_mut()))
                 .unwrap_or_default()
